@@ -416,13 +416,26 @@ def check(model, rep, tier):
   rep.rule('BI-FRAME', 'frame-sensitive builtins and frame search', floor=8)
 
   # ---------------------------------------------------------------- BI-TABLE
-  sb = mod.assigns.get('SUPPORTED_BUILTINS')
   bm = mod.assigns.get('BUILTIN_FUNCTIONS_MAP')
-  if not isinstance(sb, ast.Tuple) or not isinstance(bm, ast.Dict):
-    raise core.AnalysisError('SUPPORTED_BUILTINS / BUILTIN_FUNCTIONS_MAP not found')
-  supported = [core.dotted(e) for e in sb.elts]
+  if not isinstance(bm, ast.Dict):
+    raise core.AnalysisError('BUILTIN_FUNCTIONS_MAP not found')
   mapping = {k.value: core.dotted(v) for k, v in zip(bm.keys, bm.values)
              if isinstance(k, ast.Constant)}
+  ov = model.func(PYB, 'overload_of')
+  fpar = ov.params()[0]
+  # the set of builtin *objects* that are substituted: the module-level tuple
+  # overload_of tests membership in (by identity / equality of the function
+  # object, not by name)
+  sb = None
+  sb_name = None
+  for c in ast.walk(ov.node):
+    if isinstance(c, ast.Compare) and len(c.ops) == 1 and isinstance(
+        c.ops[0], (ast.In, ast.NotIn)) and core.norm(c.left) == fpar and isinstance(
+            c.comparators[0], ast.Name) and isinstance(
+                mod.assigns.get(c.comparators[0].id), (ast.Tuple, ast.List, ast.Set)):
+      sb_name = c.comparators[0].id
+      sb = mod.assigns[sb_name]
+  supported = [core.dotted(e) for e in sb.elts] if sb is not None else sorted(mapping)
   for b in PROPERTY_BUILTINS:
     rep.check(b in supported, 'BI-TABLE', '%s:supported(%s)' % (PYB, b),
               'builtin %s is no longer substituted' % b, {'supported': supported})
@@ -433,16 +446,31 @@ def check(model, rep, tier):
               'supported builtin %s must map, under its own __name__, to the '
               'overload %s_' % (b, b), {'maps_to': tgt},
               witness='a converted call of %s(...) dispatches to %s' % (b, tgt))
-  ov = model.func(PYB, 'overload_of')
-  src = [core.norm(s) for s in ov.node.body]
-  ok = len(ov.node.body) == 2 and isinstance(ov.node.body[0], ast.If) and \
-      core.norm(ov.node.body[0].test) == 'f in SUPPORTED_BUILTINS' and \
-      core.norm(ov.node.body[0].body[0]) == 'return BUILTIN_FUNCTIONS_MAP[f.__name__]' \
-      and core.norm(ov.node.body[1]) == 'return f'
+
+  def mem_atom(e):
+    if sb_name and core.norm(e) == '%s in %s' % (fpar, sb_name):
+      return 'MEMBER'
+    return None
+  cases = formula.return_cases(ov.node, mem_atom)
+  MEM = formula.atom('MEMBER')
+  entry = ('BUILTIN_FUNCTIONS_MAP[%s.__name__]' % fpar,
+           'BUILTIN_FUNCTIONS_MAP.get(%s.__name__)' % fpar,
+           'BUILTIN_FUNCTIONS_MAP.get(%s.__name__, %s)' % (fpar, fpar))
+  in_vals = {core.norm(v) if v is not None else 'None'
+             for f_, v in cases if formula.satisfiable(f_ & MEM)}
+  out_vals = {core.norm(v) if v is not None else 'None'
+              for f_, v in cases if formula.satisfiable(f_ & ~MEM)}
+  ok = sb is not None and len(in_vals) == 1 and in_vals <= set(entry) and \
+      out_vals == {fpar}
   rep.check(ok, 'BI-TABLE', '%s:lookup' % ov.site,
-            'overload_of must return the map entry for members of '
-            'SUPPORTED_BUILTINS and the function itself otherwise', {'body': src},
-            line=ov.node.lineno)
+            'overload_of must return the map entry exactly for the builtin '
+            '*objects* it substitutes (membership of the function object in the '
+            'tuple of builtins) and the function itself otherwise: selecting by '
+            '__name__ alone also replaces every other C-implemented callable '
+            'that happens to be called abs / any / len / ...',
+            {'for_members': sorted(in_vals), 'otherwise': sorted(out_vals),
+             'membership_table': sb_name}, line=ov.node.lineno,
+            witness='decimal.Context(prec=2).abs(d) / ndarray.any() in converted code')
 
   # ---------------------------------------------------------------- BI-SIG
   for b in supported:
